@@ -601,7 +601,7 @@ Proof.
   (* the bind: it reaches the driver *)
   assert (HB : let '(v4, br) := bind_memory v3 s image id 0 in match br with ER _ => bind_logged (v_m v4) | _ => True end).
   { unfold bind_memory. rewrite (get_alloc_slot _ _ _ Sa). destruct (id =? 0) eqn:E0; [apply Z.eqb_eq in E0; lia|].
-    destruct Sa as (Sn & Sal). rewrite Sal. cbn [negb].
+    destruct Sa as (Sn & Sal). rewrite Sal. cbn [negb]. change (0 <? 0) with false. cbn iota.
     destruct (find_offset_valid c v3 s a I3 (conj Sn Sal)) as (o & d & Ho & Hf & O1 & O2 & O3 & O4).
     assert (Hkind : a_kind a = 1 \/ a_kind a = 2).
     { destruct (vi_slots _ _ _ _ I3 s _ (conj Sn Sal) ltac:(intros [])) as [(K & _)|(K & _)]; auto. }
